@@ -36,7 +36,7 @@ def run(F, rep, tier):
         h = F.hir[vt]
         params = [p.get("name") for p in h.get("params", [])]
         cells_ok = len(params) == 3 and all(c15.compared_only(F, h, p) for p in params)
-        reps = (0, 1, 22, 23, 24, 25, 58, 59, 60, 61, 254, 255)
+        reps = tuple(sorted(set((0, 1, 22, 23, 24, 25, 58, 59, 60, 61, 254, 255)) | set(c15.around(c15.code_constants(F, h), 0, 255))))
         probs, und = [], 0
         for hh in reps:
             for mm in reps:
